@@ -585,9 +585,9 @@ class Trajectory(PymatgenTrajectory):
         elif floating_species:
             species = set()
             for sp in self.species:
-                assert isinstance(sp, Species), f'got {type(sp)=}'
+                assert isinstance(sp, (Species, Element)), f'got {type(sp)=}'
                 if sp.symbol not in floating_species:
-                    species.add(sp)
+                    species.add(sp.symbol)
 
             displacements = self.filter(species=species).displacements  # type: ignore
         else:
